@@ -176,7 +176,8 @@ func corrValues(key, node, cat int, v6 bool, seed int64) map[string]string {
 	m["destinationClusterIP"] = ip
 	m["destinationServicePort"] = "0"
 	if src || bit(6) {
-		m["destinationServicePort"] = fmt.Sprint(8000 + key + 100*node)
+		// also values whose low byte, or low two bytes' high byte, is zero
+		m["destinationServicePort"] = fmt.Sprint([]int{8000 + key + 100*node, 256 * (1 + key + 4*node), 0xff00, 8192 + 256*node, 65535 - key - 8*node}[(h>>9)%5])
 	}
 	ing, egr := 0, 0
 	switch cat {
@@ -203,7 +204,7 @@ func corrValues(key, node, cat int, v6 bool, seed int64) map[string]string {
 	m["egressNetworkPolicyRuleAction"] = fmt.Sprint(egr)
 	m["ingressNetworkPolicyRulePriority"] = "0"
 	if dst || bit(8) {
-		m["ingressNetworkPolicyRulePriority"] = fmt.Sprint(100 + key + 10*node)
+		m["ingressNetworkPolicyRulePriority"] = fmt.Sprint([]int{100 + key + 10*node, 256 * (1 + key + 4*node), 65536 * (1 + key + 4*node), 1<<24 + key + 8*node}[(h>>12)%4])
 	}
 	return m
 }
@@ -294,7 +295,7 @@ func (s *aggSession) buildElements(r aggRec, v6 bool) []entities.InfoElementWith
 		entities.NewDateTimeSecondsInfoElement(ie("flowEndSeconds", I), r.End),
 		entities.NewUnsigned8InfoElement(ie("flowEndReason", I), registry.ActiveTimeoutReason),
 		entities.NewStringInfoElement(ie("tcpState", A), r.TCPState),
-		entities.NewStringInfoElement(ie("httpVals", A), ""),
+		entities.NewStringInfoElement(ie("httpVals", A), r.HTTP),
 		entities.NewUnsigned8InfoElement(ie("flowType", A), flowTypeOf(r.Cat)),
 		entities.NewUnsigned64InfoElement(ie("packetTotalCount", I), r.Tot[0]),
 		entities.NewUnsigned64InfoElement(ie("packetDeltaCount", I), r.Delta[0]),
@@ -315,6 +316,26 @@ func (s *aggSession) buildElements(r aggRec, v6 bool) []entities.InfoElementWith
 	return els
 }
 
+// httpValsOf: the free-text httpVals field of a record. Mostly empty; otherwise a JSON object keyed by
+// transaction id as the flow exporter writes it, or text that is not such an object (cut short, a
+// non-integer key, an array, a nested value). The process keeps the text as it can; the counters
+// and end times of the record count all the same.
+func httpValsOf(d int64, end uint32) string {
+	switch (d >> 3) % 16 {
+	case 10, 11:
+		return fmt.Sprintf(`{"%d":"GET /p%d HTTP/1.1 200"}`, end%7, end)
+	case 12:
+		return `{"1":"GET /cut`
+	case 13:
+		return `{"a":"b"}`
+	case 14:
+		return `[1,2]`
+	case 15:
+		return `{"1":{"x":1}}`
+	}
+	return ""
+}
+
 func (s *aggSession) recOf(op plan.Op) aggRec {
 	key := int(op.A)
 	n := make([]int64, 8)
@@ -330,7 +351,7 @@ func (s *aggSession) recOf(op plan.Op) aggRec {
 	}
 	return aggRec{Key: key, Node: node, Cat: cat, Start: uint32(n[0]), End: uint32(n[1]),
 		Tot: [4]uint64{uint64(n[2]), uint64(n[3]), uint64(n[4]), uint64(n[5])}, Delta: [2]uint64{uint64(n[6]), uint64(n[7])},
-		TCPState: op.S, Corr: corrValues(key, node, cat, v6, op.D), Layout: int(op.D % 3)}
+		TCPState: op.S, Corr: corrValues(key, node, cat, v6, op.D), Layout: int(op.D % 3), HTTP: httpValsOf(op.D, uint32(n[1]))}
 }
 
 // ---- reading the real process -------------------------------------------------
